@@ -104,7 +104,7 @@ func simple(fd *ast.FuncDecl, obj types.Object, info *types.Info) string {
 	ast.Inspect(fd.Body, func(n ast.Node) bool {
 		switch x := n.(type) {
 		case *ast.DeferStmt:
-			why = "defer"
+			// a deferring function can only be merged where it is called in tail position (see tailInline)
 		case *ast.LabeledStmt:
 			if !strings.HasPrefix(x.Label.Name, "_inl") {
 				why = "label"
@@ -135,6 +135,21 @@ func simple(fd *ast.FuncDecl, obj types.Object, info *types.Info) string {
 		return why == ""
 	})
 	return why
+}
+
+// hasDefer reports whether the function body (outside nested literals) contains a defer.
+func hasDefer(fd *ast.FuncDecl) bool {
+	found := false
+	ast.Inspect(fd.Body, func(n ast.Node) bool {
+		switch n.(type) {
+		case *ast.FuncLit:
+			return false
+		case *ast.DeferStmt:
+			found = true
+		}
+		return !found
+	})
+	return found
 }
 
 // Normalize computes the overlay. root is the module directory; modPath its path.
@@ -775,6 +790,9 @@ func (c *ctxT) inlineCall(p *packages.Package, f *ast.File, filename string, src
 		c.notes = append(c.notes, fmt.Sprintf("call of new function %s at %s not inlined: imports or names differ at the call site (%s)", cal.nameKey, c.fset.Position(call.Pos()), lastCapture))
 		return nil, false
 	}
+	if hasDefer(cal.decl) {
+		return c.tailInline(p, f, filename, src, stack, call, recv, cal, done)
+	}
 	// arguments must not contain calls to other candidates (handled in a later round) — any nested call text is copied verbatim, fine
 	var argTexts []string
 	for _, a := range call.Args {
@@ -1076,4 +1094,152 @@ func (c *ctxT) asLiteral(p *packages.Package, f *ast.File, src []byte, ref ast.E
 	}
 	fmt.Fprintf(&sb, "}/*line %s:%d:%d*/", refPos.Filename, refPos.Line, col)
 	return sb.String(), true
+}
+
+// tailInline merges a function that defers into a caller that calls it in tail
+// position: "return h(args)" as the sole result expression, where both have the
+// same result types and h's results are unnamed or named exactly like the
+// caller's (so that h's deferred functions keep reading and writing the result
+// they always did). h's deferred calls then run when the caller returns, which is
+// when they ran before, and ahead of the caller's own earlier defers as before.
+// The body is copied verbatim - its return statements now return from the caller.
+func (c *ctxT) tailInline(p *packages.Package, f *ast.File, filename string, src []byte, stack []ast.Node, call *ast.CallExpr, recv ast.Expr, cal *callee, done map[ast.Node]bool) ([]edit, bool) {
+	if len(stack) < 3 {
+		return nil, false
+	}
+	ret, ok := stack[len(stack)-2].(*ast.ReturnStmt)
+	if !ok || len(ret.Results) != 1 || ret.Results[0] != ast.Expr(call) || done[ret] {
+		return nil, false
+	}
+	switch stack[len(stack)-3].(type) {
+	case *ast.BlockStmt, *ast.CaseClause, *ast.CommClause:
+	default:
+		return nil, false
+	}
+	// the enclosing function declaration (not a literal: its results are what the body's returns feed)
+	var encl *ast.FuncDecl
+	for i := len(stack) - 1; i >= 0; i-- {
+		if _, isLit := stack[i].(*ast.FuncLit); isLit {
+			return nil, false
+		}
+		if fd, isFD := stack[i].(*ast.FuncDecl); isFD {
+			encl = fd
+			break
+		}
+	}
+	if encl == nil {
+		return nil, false
+	}
+	flat := func(fl *ast.FieldList) (names []string, typs []ast.Expr) {
+		if fl == nil {
+			return
+		}
+		for _, fld := range fl.List {
+			if len(fld.Names) == 0 {
+				names = append(names, "")
+				typs = append(typs, fld.Type)
+			}
+			for _, nm := range fld.Names {
+				names = append(names, nm.Name)
+				typs = append(typs, fld.Type)
+			}
+		}
+		return
+	}
+	cn, ct := flat(cal.decl.Type.Results)
+	en, et := flat(encl.Type.Results)
+	if len(cn) != len(en) {
+		return nil, false
+	}
+	for i := range cn {
+		t1, t2 := cal.pkg.TypesInfo.TypeOf(ct[i]), p.TypesInfo.TypeOf(et[i])
+		if t1 == nil || t2 == nil || !types.Identical(t1, t2) {
+			return nil, false
+		}
+		if cn[i] != "" && cn[i] != "_" && cn[i] != en[i] {
+			return nil, false // a named result the caller does not have under that name
+		}
+	}
+	// the caller's results must be the visible meaning of those names at the call
+	scope := p.Types.Scope().Innermost(call.Pos())
+	for i, nm := range cn {
+		if nm == "" || nm == "_" {
+			continue
+		}
+		var want types.Object
+		k := 0
+		for _, fld := range encl.Type.Results.List {
+			for _, id := range fld.Names {
+				if k == i {
+					want = p.TypesInfo.Defs[id]
+				}
+				k++
+			}
+		}
+		if _, got := scope.LookupParent(nm, call.Pos()); got == nil || got != want {
+			return nil, false
+		}
+	}
+	// parameters
+	var sb strings.Builder
+	c.counter++
+	pfx := fmt.Sprintf("_inl%d_", c.counter)
+	type par struct{ name, typ string }
+	var pars []par
+	var args []string
+	if cal.decl.Recv != nil && len(cal.decl.Recv.List) > 0 {
+		if recv == nil {
+			return nil, false
+		}
+		fld := cal.decl.Recv.List[0]
+		name := "_"
+		if len(fld.Names) > 0 {
+			name = fld.Names[0].Name
+		}
+		pars = append(pars, par{name, c.text(cal.src, fld.Type)})
+		args = append(args, c.text(src, recv))
+	}
+	if cal.decl.Type.Params != nil {
+		for _, fld := range cal.decl.Type.Params.List {
+			if _, isEl := fld.Type.(*ast.Ellipsis); isEl {
+				return nil, false
+			}
+			typ := c.text(cal.src, fld.Type)
+			if len(fld.Names) == 0 {
+				pars = append(pars, par{"_", typ})
+			}
+			for _, nm := range fld.Names {
+				pars = append(pars, par{nm.Name, typ})
+			}
+		}
+	}
+	for _, a := range call.Args {
+		args = append(args, c.text(src, a))
+	}
+	if len(args) != len(pars) {
+		return nil, false
+	}
+	sb.WriteString("{ ")
+	for i, a := range args {
+		fmt.Fprintf(&sb, "var %sa%d %s = %s; ", pfx, i, pars[i].typ, a)
+	}
+	sb.WriteString("{ ")
+	var used []string
+	for i, pr := range pars {
+		if pr.name == "_" {
+			fmt.Fprintf(&sb, "_ = %sa%d; ", pfx, i)
+			continue
+		}
+		fmt.Fprintf(&sb, "var %s %s = %sa%d; ", pr.name, pr.typ, pfx, i)
+		used = append(used, pr.name)
+	}
+	if len(used) > 0 {
+		fmt.Fprintf(&sb, "%s = %s; ", strings.TrimSuffix(strings.Repeat("_, ", len(used)), ", "), strings.Join(used, ", "))
+	}
+	bpos := c.fset.Position(cal.decl.Body.Lbrace)
+	fmt.Fprintf(&sb, "\n//line %s:%d\n", bpos.Filename, bpos.Line)
+	sb.Write(cal.src[c.off(cal.decl.Body.Lbrace)+1 : c.off(cal.decl.Body.Rbrace)])
+	fmt.Fprintf(&sb, "} }\n//line %s:%d\n", filename, c.fset.Position(ret.End()).Line)
+	done[ret] = true
+	return []edit{{c.off(ret.Pos()), c.off(ret.End()), sb.String()}}, true
 }
